@@ -3,6 +3,10 @@ C = "ak/color.py"
 H = "ak/hdoc.py"
 G = "ak/ghist.py"
 MUTANTS = [
+    # R10m: per-rendering scratch on an object that outlives the call
+    {"id": "c10-service-line-on-self", "expect": "fire", "edits": [(P, "        self.records = records\n", "        self.records = records\n        self._break_line_obj = getattr(self, \"_ServiceLine\", type(\"S\", (), {}))()\n", 2),
+                                                              (P, "        break_line = self._ServiceLine()\n", "        break_line = self._break_line_obj\n")]},
+    {"id": "c10-n-service-line-factory", "expect": "silent", "edits": [(P, "        break_line = self._ServiceLine()\n", "        break_line = self._ServiceLine(None)\n")]},
     {"id": "c10-id-key", "expect": "fire", "edits": [(P, "        cache_key = field_palette  # need to maintain separate caches", "        cache_key = id(field_palette)  # need to maintain separate caches")]},
     {"id": "c10-second-id-cache", "expect": "fire", "edits": [(P, """    def val_to_name(self, value) -> str:
         \"\"\"Return simple string name of the value.\"\"\"
